@@ -799,6 +799,7 @@ func famUtl(t *testing.T, r *Rec) {
 			r.Cover("map/" + strings.Fields(op)[2] + "/had=" + b01(had) + "/quiet=" + b01(quiet))
 			if out != want+" ; "+state() {
 				r.Violate("C20", "C20/map/"+strings.Fields(op)[2], fmt.Sprintf("%s => %s, want %s ; %s", op, out, want, state()), replay)
+				r.Violate("C04", "C04/client-table-map/"+strings.Fields(op)[2], fmt.Sprintf("the Map that holds the client table: %s => %s, want %s ; %s", op, out, want, state()), replay)
 				break
 			}
 		}
@@ -902,12 +903,130 @@ func famUtl(t *testing.T, r *Rec) {
 			r.Cover("mapr/" + strings.Fields(op)[2] + "/" + shape)
 			if res != want {
 				r.Violate("C20", "C20/mapr/"+strings.Fields(op)[2], fmt.Sprintf("%s => %s, want %s (an ordinary map holds %v)", op, res, want, ref), replay)
+				// the server's client table is this Map: a key that is lost, kept or miscounted is a session that is
+				// unreachable, still reachable after its close, or a count that drifts
+				r.Violate("C04", "C04/client-table-map/"+strings.Fields(op)[2], fmt.Sprintf("the Map that holds the client table: %s => %s, want %s (an ordinary map holds %v)", op, res, want, ref), replay)
 				break
 			}
 		}
 	}
+	mapReachable(r)
 	emitterFamily(r, nSeq)
 	idsFamily(r)
+}
+
+// mapRefStep: what an ordinary map answers to one call of the raw Map vocabulary (and how it changes).
+func mapRefStep(ref map[int]int, f []string) string {
+	vb := func(k int) string {
+		if v, ok := ref[k]; ok {
+			return fmt.Sprint(v)
+		}
+		return "none"
+	}
+	switch f[0] {
+	case "store":
+		ref[atoi(f[1])] = atoi(f[2])
+		return "ok"
+	case "load":
+		return vb(atoi(f[1]))
+	case "loadorstore":
+		if v, ok := ref[atoi(f[1])]; ok {
+			return fmt.Sprintf("%d,1", v)
+		}
+		ref[atoi(f[1])] = atoi(f[2])
+		return f[2] + ",0"
+	case "loadanddelete":
+		out := vb(atoi(f[1]))
+		delete(ref, atoi(f[1]))
+		return out
+	case "delete":
+		delete(ref, atoi(f[1]))
+		return "ok"
+	case "swap":
+		out := vb(atoi(f[1]))
+		ref[atoi(f[1])] = atoi(f[2])
+		return out
+	case "cas":
+		if v, ok := ref[atoi(f[1])]; ok && v == atoi(f[2]) {
+			ref[atoi(f[1])] = atoi(f[3])
+			return "1"
+		}
+		return "0"
+	case "cad":
+		if v, ok := ref[atoi(f[1])]; ok && v == atoi(f[2]) {
+			delete(ref, atoi(f[1]))
+			return "1"
+		}
+		return "0"
+	case "len":
+		return fmt.Sprint(len(ref))
+	case "range":
+		return fmt.Sprintf("visited=%d", min(atoi(f[1]), len(ref)))
+	case "clear":
+		for k := range ref {
+			delete(ref, k)
+		}
+		return "ok"
+	}
+	return "?"
+}
+
+// mapReachable: every internal state the Map can reach over three keys and two values, breadth first (a state is the
+// VerifDump of the implementation together with the contents an ordinary map would have); in each of them every call
+// of the vocabulary must answer as the ordinary map does. The shortest path to a wrong answer is the replay. Monitor
+// only (the paths are re-run from a fresh Map; a sample of them also goes through the correspondence above).
+func mapReachable(r *Rec) {
+	var vocab []string
+	for k := 0; k < 3; k++ {
+		vocab = append(vocab, fmt.Sprintf("store %d 1", k), fmt.Sprintf("load %d", k), fmt.Sprintf("delete %d", k),
+			fmt.Sprintf("loadorstore %d 2", k), fmt.Sprintf("loadanddelete %d", k), fmt.Sprintf("cas %d 1 2", k), fmt.Sprintf("cad %d 2", k), fmt.Sprintf("swap %d 2", k))
+	}
+	vocab = append(vocab, "len", "range 2", "clear")
+	limit := 4000
+	if r.thorough() {
+		limit = 40000
+	}
+	run := func(path []string) (it *utlInterp, ref map[int]int, last, want string) {
+		it, ref = &utlInterp{}, map[int]int{}
+		it.Exec("utl mapr new")
+		for _, op := range path {
+			last, _, _ = strings.Cut(it.Exec("utl mapr "+op), " ; ")
+			want = mapRefStep(ref, strings.Fields(op))
+		}
+		return
+	}
+	key := func(it *utlInterp, ref map[int]int) string { return mapDump(it.mp) + fmt.Sprint(ref) }
+	seen := map[string]bool{}
+	frontier := [][]string{{}}
+	it0, ref0, _, _ := run(nil)
+	seen[key(it0, ref0)] = true
+	states, calls := 1, 0
+	for len(frontier) > 0 && states < limit {
+		path := frontier[0]
+		frontier = frontier[1:]
+		for _, op := range vocab {
+			next := append(append([]string{}, path...), op)
+			it, ref, got, want := run(next)
+			calls++
+			if got != want {
+				replay := []string{"utl mapr new"}
+				for _, o := range next {
+					replay = append(replay, "utl mapr "+o)
+				}
+				r.Violate("C20", "C20/map-reachable/"+strings.Fields(op)[0], fmt.Sprintf("after %v the Map answers %s to %q, an ordinary map %s", path, got, op, want), replay)
+				r.Violate("C04", "C04/client-table-map/reachable/"+strings.Fields(op)[0], fmt.Sprintf("the Map that holds the client table: after %v it answers %s to %q, an ordinary map %s", path, got, op, want), replay)
+				return
+			}
+			if k := key(it, ref); !seen[k] {
+				seen[k] = true
+				states++
+				frontier = append(frontier, next)
+			}
+		}
+	}
+	r.scenarios++
+	r.Cover(fmt.Sprintf("map-reachable/states>=%d", states/1000*1000))
+	r.notes = append(r.notes, fmt.Sprintf("map-reachable: %d internal states of the Map over 3 keys explored breadth first (%d calls checked against an ordinary map), frontier left %d", states, calls, len(frontier)))
 }
 
 // sliceAliasing: storage must not be shared with caller-owned slices (monitor only).
